@@ -168,10 +168,15 @@ GRIDS = ["moore", "vn", "hex", "network", "network_str", "single", "multi", "non
 FORMS = ["seed", "rng_int", "rng_seq", "rng_gen"]
 
 
+def rand_seed(R):
+    """all seeds: the boundary seed 0 (falsy!) one time in five"""
+    return 0 if R.random() < 0.2 else R.randrange(1, 10**6)
+
+
 def rand_spec(R, examples_first=None):
     if examples_first is not None:
-        return {"prog": "example:" + examples_first, "seed": R.randrange(1, 10**6), "form": "seed", "steps": 3}
-    return {"prog": "api", "grid": R.choice(GRIDS), "n": R.randrange(3, 8), "seed": R.randrange(1, 10**6),
+        return {"prog": "example:" + examples_first, "seed": rand_seed(R), "form": "seed", "steps": 3}
+    return {"prog": "api", "grid": R.choice(GRIDS), "n": R.randrange(3, 8), "seed": rand_seed(R),
             "form": R.choice(FORMS), "steps": R.randrange(2, 5), "ops": [R.choice(OPS) for _ in range(R.randrange(2, 6))]}
 
 
@@ -183,8 +188,22 @@ def generate(rng, tier, count):
         else:
             spec = rand_spec(rng)
         warm = [rand_spec(rng), rand_spec(rng, examples_first=rng.choice(names))]
+        if spec["prog"].startswith("example:"):
+            # the same model class built earlier in this process with other constructor arguments
+            warm.append(dict(rand_spec(rng, examples_first=spec["prog"].split(":", 1)[1]), alt=True))
         hs = ["0", "1", "4242"] + (["random"] if tier == "thorough" else [])
         yield core.Scenario(["spec " + json.dumps(spec, sort_keys=True)], {"warm": warm, "hashseeds": hs})
+
+
+def builtin_corpus():
+    """every bundled example once with the same class built first with other constructor arguments (class-level state that one
+    instance leaves behind changes a later default run of the same class), default seed form, seed 0 for every third"""
+    out = []
+    for i, name in enumerate(RUN.EXAMPLES):
+        spec = {"prog": "example:" + name, "seed": 0 if i % 3 == 0 else 1000 + i, "form": "seed", "steps": 3}
+        warm = [{"prog": "example:" + name, "seed": 77 + i, "form": "seed", "steps": 2, "alt": True}]
+        out.append(core.Scenario(["spec " + json.dumps(spec, sort_keys=True)], {"warm": warm, "hashseeds": ["0", "1"]}))
+    return out
 
 
 def _sub(spec, hashseed):
